@@ -8,6 +8,7 @@ package pattern
 //@ props C19 C12 C16
 
 //@ default opaque
+//@ default variants
 
 //@ func Match
 //@   ensures result1 == nil ==> len(result0) <= len(s)
@@ -50,6 +51,7 @@ package pattern
 // Hidden names: a name that begins with a period is passed on only when the
 // compiled component begins with a literal period.
 //@ func glob
+//@   loop "for" unbounded ends when the directory is exhausted (os.File.Readdirnames reports io.EOF): a property of the file system
 //@   requires rx != nil && fn != nil
 //@   assert[C16] at call fn#2: hidden-rule: len(n) >= 1 && hasprefix(n[0], ".") ==> hasprefix(rxsrc(rx), "^(\\.")
 
